@@ -98,4 +98,24 @@ def retOfFresh (env : TypeEnv) (methodName : String) (cols : List Q.Column) : Qu
   | cs => { emit := true, name := "i",
             struct := some (columnsToStruct env (methodName ++ "Row") ((cs.zipIdx).map (fun ci => { id := ci.2, col := ci.1 }))) }
 
+/-- the per-struct test of buildQueries: same length, and for every position the same field name, the
+same Go type and the same table (all positions are examined; one failure clears `same`) -/
+def reuseMatch (env : TypeEnv) (s : Struct) (cols : List Q.Column) : Bool :=
+  s.fields.length == cols.length &&
+  ((s.fields.zip cols).zipIdx).all (fun (fc, i) =>
+    fc.1.name == structName env.rename (columnName fc.2.name i) &&
+    fc.1.type == goType env (toTypeColumn fc.2) &&
+    sameTableName ((toTypeColumn fc.2).table) s.table env.defaultSchema)
+
+/-- buildQueries' result shaping: the first model struct that passes the test is returned instead of a
+fresh Row struct -/
+def retOf (env : TypeEnv) (structs : List Struct) (methodName : String) (cols : List Q.Column) : QueryValue :=
+  match cols with
+  | [] => {}
+  | [c] => { name := columnName c.name 0, typ := goType env (toTypeColumn c) }
+  | cs =>
+    match structs.find? (fun s => reuseMatch env s cs) with
+    | some s => { emit := false, name := "i", struct := some s }
+    | none => retOfFresh env methodName cs
+
 end Sqlc.GoGen
